@@ -42,10 +42,10 @@ def floors(tier):
 
 
 OPTION_VARIANTS = {
-    "solve_time": [7.5],
-    "skip_time": [0.25],
-    "dt_init": [1e-4],
-    "dt_max": [0.05],
+    "solve_time": [7.5, 1e9, 1e-9],
+    "skip_time": [0.25, 1e-12],
+    "dt_init": [1e-4, 1e-13],
+    "dt_max": [0.05, 1e6],
     "adaptive": [False],
     "adaptive_window": [3],
     "max_solve_retries": [4],
@@ -61,8 +61,8 @@ OPTION_VARIANTS = {
     "current_units": ["nA"],
     "include_screening": [True],
     "max_iterations_per_step": [77],
-    "screening_tolerance": [1e-5],
-    "screening_step_size": [0.3],
+    "screening_tolerance": [1e-5, 1e-14],
+    "screening_step_size": [0.3, 1e-9],
     "screening_step_drag": [0.9],
 }
 
